@@ -124,7 +124,7 @@ class ClientAuthenticator:
                 self.authenticated = True
 
     def _auth_AGREE_UNIX_FD(self, line):
-        if self.unixFDSupport:
+        if self.unixFDSupport and self.guid is not None:
             self.sendAuthMessage(b'BEGIN')
             self.authenticated = True
         else:
